@@ -349,6 +349,8 @@ def rule_counter_writers(ctx: Ctx, prog: Program, thorough: bool = False) -> Non
             if fn.name in allowed:
                 ctx.ok("R-COUNTER", f"writer of the statistics: {fn.name}", nontrivial=False)
             else:
+                from .engine import refuse_unmodelled_algorithm
+                refuse_unmodelled_algorithm(prog, fn)
                 ctx.violation("R-COUNTER", fn.path, fn.qualname, "unexpected-writer", fn.loc(),
                               f"{fn.qualname} writes the statistics array; only the propagation loop, the shaving loop, backtrack and solve_one count events")
     ctx.floor("R-COUNTER:writers", n, 4)
